@@ -125,6 +125,10 @@ LCONFIGS = {
     "observers": [["sub", ALL, ["accept"]], ["sub", ["b"], ["accept"]], ["con", ["accept"]]],
     "sub-rejecter-first": [["sub", ["i", "s"], ["reject_if", "i", 2]], ["sub", ALL, ["accept"]], ["con", ["accept"]]],
     "sub-rejecter-last": [["sub", ALL, ["accept"]], ["sub", ["i", "s"], ["reject_if", "i", 2]], ["con", ["accept"]]],
+    # several subscribe() callbacks around the rejecting one: those after it must still hear the restored state's
+    # successors (every later accepted update), those before it must see the restoration
+    "sub-rejecter-middle": [["sub", ALL, ["accept"]], ["sub", ["i", "s"], ["reject_if", "i", 2]], ["sub", ALL, ["accept"]],
+                            ["sub", ["i"], ["accept"]], ["con", ["accept"]]],
     "con-rejecter": [["sub", ALL, ["accept"]], ["con", ["accept"]], ["con", ["reject_if", "s", "x"]], ["con", ["accept"]]],
     "reject-always": [["sub", ALL, ["accept"]], ["con", ["accept"]], ["con", ["reject_always"]]],
     # an *active* listener (like the intercept addon, which sets intercept_active when intercept changes): it reacts to an
@@ -448,6 +452,18 @@ def _r(snap):
     return {k: repr(v) for k, v in sorted(snap.items())}
 
 
+def registrations(s):
+    """which of the listeners the OptManager still holds, in its order (part of the state: it decides who hears the next
+    update).  Read from the object graph: the subscription list and the receivers of the `changed` signal."""
+    def who(ref):
+        cb = ref()
+        owner = getattr(cb, "__self__", None)
+        return s.listeners.index(owner) if owner in s.listeners else ("other" if cb is not None else "dead")
+    subs = [[who(ref), sorted(names)] for ref, names in getattr(s.opts, "_subscriptions", [])]
+    cons = [who(ref) for ref in getattr(s.opts.changed, "receivers", [])]
+    return [subs, cons]
+
+
 class Spec:
     def __init__(self, cfg):
         self.cfg = cfg
@@ -459,7 +475,7 @@ class Spec:
         d = []
         for k, v in sorted(s.opts.deferred.items()):
             d.append([k, repr(getattr(v, "val", v)), type(v).__name__])
-        return [self.cfg, _r(snapshot(s.opts)), d]
+        return [self.cfg, _r(snapshot(s.opts)), d, registrations(s)]
 
     def actions(self, s):
         return actions_for(s)
